@@ -80,7 +80,14 @@ def compare_stream(stream_text: str, listing_text: str):
         probs.append(("count", n, f"stream has {len(dec)} records, listing has {len(rinsts)} instruction lines; first divergence at line {where!r} vs record {got}"))
         return probs, rinsts, dec
     seen = set()
+    raw_records = stream_text.split("|")
     for n, (d, ri) in enumerate(zip(dec, rinsts)):
+        if "," in ri.parsed.mnemonic and not ri.parsed.prefixes and len(raw_records) == len(dec) + 1:
+            # a hinted branch (`jne,pt`): decoding splits at its comma (C10's open finding), so the mnemonic is judged on the record's
+            # text - it carries the token objdump printed, whatever else is configured
+            if not raw_records[n].startswith(f"{ri.addr}::{ri.parsed.mnemonic},") and ("hint", None) not in seen:
+                seen.add(("hint", None))
+                probs.append(("mnemonic", n, f"record {n} is {raw_records[n]!r}: it does not carry the mnemonic {ri.parsed.mnemonic!r} of line {ri.raw!r}"))
         if d[0] != ri.addr:
             probs.append(("address", n, f"record {n} has address {d[0]}, line is {ri.raw!r}"))
             break
